@@ -782,6 +782,7 @@ namespace xsimd
             T0 r(static_cast<value_type_or_type<T0>>(1));
             while (1)
             {
+                XSIMD_VERIF_LOOP_TICK();
                 if (b & 1)
                 {
                     r *= a;
